@@ -318,7 +318,9 @@ void small_free_memory_list::deallocate(void* mem) noexcept
     auto info =
         allocator_info(FOONATHAN_MEMORY_LOG_PREFIX "::detail::small_free_memory_list", this);
 
-    auto node = static_cast<unsigned char*>(detail::debug_fill_free(mem, node_size_, 0));
+    // note: fill only after the pointer has been validated,
+    // otherwise an invalid pointer makes it write into chunk headers or foreign memory before it is reported
+    auto node = static_cast<unsigned char*>(mem);
 
     auto chunk     = find_chunk_impl(node);
     dealloc_chunk_ = chunk;
@@ -333,6 +335,7 @@ void small_free_memory_list::deallocate(void* mem) noexcept
 
     auto index = offset / node_size_;
     FOONATHAN_MEMORY_ASSERT(index < chunk->no_nodes);
+    detail::debug_fill_free(mem, node_size_, 0);
     chunk->deallocate(node, static_cast<unsigned char>(index));
 
     ++capacity_;
